@@ -27,7 +27,7 @@ ASSUMPTIONS = [
     'iteration is judged on complete iterations only; whether it consumes the rows is left open (both PEP 249 and beanquery semantics accepted)',
     'type_code is only required to be non-None and equal for equal datatypes within a run',
 ]
-PROBES = ['caller_mutates_returned_list', 'executemany', 'executemany_with_arraysize_set', 'fetchmany_beyond_remainder', 'fetch_after_exhaustion', 'reexecute_with_rows_pending', 'failed_execute_then_fetch',
+PROBES = ['large_result_over_64_rows', 'caller_mutates_returned_list', 'executemany', 'executemany_with_arraysize_set', 'fetchmany_beyond_remainder', 'fetch_after_exhaustion', 'reexecute_with_rows_pending', 'failed_execute_then_fetch',
           'rowcount_after_partial_fetch', 'description_slice', 'two_cursors_both_pending', 'empty_result', 'fetch_before_execute',
           'arraysize_default_used', 'iterate_after_partial_fetch']
 
@@ -70,6 +70,9 @@ def gen_stmts(rng, tname, ncols, nrows):
 def generate(rng, tier, run):
     big = tier == 'thorough'
     nrows = rng.choice([0, 1, 2, 3, 5, 8, 13, 21, 40]) if not big else rng.randint(0, 60)
+    if rng.random() < 0.07:
+        # occasionally a large result: buffers released in chunks, thresholds, "small result" fast paths
+        nrows = rng.choice([64, 65, 100, 128, 129, 200, 257, 400])
     ncols = rng.randint(1, 5)
     cols = [('a', 'int'), ('b', 'dec'), ('c', 'str'), ('d', 'date'), ('e', 'bool')][:ncols]
     table = world.gen_table(rng, 't0', nrows=nrows, cols=cols, nullable=0.1)
@@ -114,6 +117,8 @@ def generate(rng, tier, run):
                 op['sets'] = [rng.randint(0, nrows + 2) for _ in range(rng.choice([0, 1, 2, 3]))]
             elif kname == 'fetchmany':
                 op['n'] = None if rng.random() < 0.35 else rng.randint(1, nrows + 3)
+                if nrows >= 64 and rng.random() < 0.5:
+                    op['n'] = rng.choice([1, 2, 31, 32, 33, 63, 64, 65, 70, 100, 127, 128, 129])
             elif kname == 'arraysize':
                 op['n'] = rng.randint(1, nrows + 3)
             elif kname == 'desc_probe':
@@ -307,6 +312,8 @@ def execute(case, keep_log=False):
                 S.probes['reexecute_with_rows_pending'] += 1
             if not r[2]:
                 S.probes['empty_result'] += 1
+            if len(r[2]) > 64:
+                S.probes['large_result_over_64_rows'] += 1
             arr = models[ci][0].arraysize
             models[ci] = [State(rows=r[2], pos=0, total=len(r[2]), desc=r[1], arraysize=arr)]
             fetches_since_exec[ci] = 0
